@@ -236,7 +236,7 @@ pub fn run(cfg: &RunCfg) -> Report {
     let known = crate::known::load(&cfg.root);
     let excuse = known.listed("C11", "KF-C11-1");
     let tier = cfg.tier;
-    let n = cfg.cases(40_000, 1_500_000);
+    let n = cfg.cases(200_000, 6_000_000);
     rep.absorb("restore_differential", explore(cfg, "C11", n, move || case(tier), move |c: &Case, st| eval(c, st, excuse).map(|_| ())));
     for f in known.for_property("C11") {
         let hit = crate::known::read_witness(&cfg.root, f)
